@@ -147,6 +147,10 @@ func c13Program(id string, strs []string, k0 int) *Prog {
 			ix := &E{K: "index", Ty: TUint8, X: v(cn, bt), I: lit(TInt, int64(i))}
 			body = append(body, pr("cpb", ix, &E{K: "bin", Ty: TUint8, Op: "+", L: ix, R: lit(TUint8, 200)}))
 		}
+		// append(b, s...) appends the bytes of s
+		an := fmt.Sprintf("ab%d", n)
+		body = append(body, &S{K: "decl", Names: []string{an}, Exprs: []*E{{K: "append", Ty: bt, X: &E{K: "conv", Ty: bt, X: &E{K: "str", Ty: TString, S: "x"}}, Args: []*E{sv}, Spread: true}}})
+		body = append(body, pr("ap", lenOf(v(an, bt)), cmp("==", &E{K: "conv", Ty: TString, X: v(an, bt)}, &E{K: "bin", Ty: TString, Op: "+", L: &E{K: "str", Ty: TString, S: "x"}, R: sv})))
 		for _, t := range cmpSet {
 			te := &E{K: "str", Ty: TString, S: t}
 			body = append(body, pr("c", cmp("<", sv, te), cmp("<=", sv, te), cmp("==", sv, te), cmp("!=", sv, te), cmp(">", sv, te), cmp(">=", sv, te)))
